@@ -172,6 +172,13 @@ Definition run_fs (st : option Loaded) (rt : option Routing) (F : fs) (op : stri
                    else pure (N [L "raise"; L "Unmodelled"])
         | Raise _ => pure (t_out (t_opt L) (find_all_one Ld Rt F q))
         end
+    (* Finder.exists(s) = bool(find_one(s)): some result, and the first one a non-empty string *)
+    | "finder_exists", [L "paths"; L cfg; L q] =>
+        pure (t_out t_bool (match ffind Ld F (FPaths "" (default_cfg Ld cfg)) q with
+                            | Ok l => Ok (match l with s :: _ => truthy s | [] => false end) | Raise e => Raise e end))
+    | "finder_exists", [L "all"; L _; L q] =>
+        pure (t_out t_bool (match find_all Ld Rt F q with
+                            | Ok l => Ok (match l with s :: _ => truthy s | [] => false end) | Raise e => Raise e end))
     | "sid_exists", [s] => on_sid s (fun x => t_out t_bool (sid_exists Ld Rt F x))
     | "children", [s] => on_sid s (fun x => t_out sorted_strs (children Ld Rt F x))
     | "siblings", [s] => on_sid s (fun x => t_out sorted_strs (siblings Ld Rt F x))
